@@ -13,6 +13,7 @@ git -C /repo worktree add --detach "$wt" HEAD >/dev/null 2>&1 || { echo '{"error
 cd "$wt" || exit 1
 demo_dir=$(python3 -c "import json;print(json.load(open('$seed/meta.json')).get('demo_dir','').strip('/'))")
 demo_dir=${demo_dir#./}
+race=$(python3 -c "import json;print('-race' if '-race' in json.load(open('$seed/meta.json')).get('demo_cmd','') else '')")
 applies=true
 git apply "$seed/patch.diff" 2>/dev/null || git apply -3 "$seed/patch.diff" >/dev/null 2>&1 || applies=false
 res_build=skip; res_tests=skip; res_demo_with=skip; res_demo_without=skip; pkgs=""
@@ -25,12 +26,12 @@ if $applies; then
   if [ -z "$fails" ] && ! echo "$tout" | grep -q "build failed"; then res_tests=ok; else res_tests="fail: $(echo $fails | head -c 300)"; fi
   # demo with the patch
   cp "$seed"/zz_*_test.go "$demo_dir"/ 2>/dev/null
-  dout=$(go test -vet=off -count=1 -timeout 10m -run 'Seed|ZZ|zz' "./$demo_dir/" 2>&1)
-  if echo "$dout" | grep -q -E "^(--- FAIL|FAIL|panic:)"; then res_demo_with=fails; else res_demo_with="passes(!)"; fi
+  dout=$(go test $race -vet=off -count=1 -timeout 10m -run 'Seed|ZZ|zz' "./$demo_dir/" 2>&1)
+  if echo "$dout" | grep -q -E "^(--- FAIL|FAIL|panic:|WARNING: DATA RACE)"; then res_demo_with=fails; else res_demo_with="passes(!)"; fi
   # demo without the patch
   git checkout -- . >/dev/null 2>&1; git reset -q --hard HEAD
   cp "$seed"/zz_*_test.go "$demo_dir"/ 2>/dev/null
-  dout2=$(go test -vet=off -count=1 -timeout 10m -run 'Seed|ZZ|zz' "./$demo_dir/" 2>&1)
+  dout2=$(go test $race -vet=off -count=1 -timeout 10m -run 'Seed|ZZ|zz' "./$demo_dir/" 2>&1)
   if echo "$dout2" | grep -q -E "^ok"; then res_demo_without=passes; else res_demo_without="fails(!): $(echo "$dout2" | grep -E '^(--- FAIL|panic:|FAIL)' | head -3 | tr '\n' ' ' | head -c 300)"; fi
 fi
 cd /; git -C /repo worktree remove --force "$wt" >/dev/null 2>&1; rm -f /tmp/confirm_build.$$
